@@ -989,6 +989,62 @@ theorem worldOk_live (hx : Hdr.Ext) (now : Int) (xml : Tags.Str → Msg.XmlVerdi
   menv_sane := C16.live_env_sane xml hxml
   kmsg_real := ⟨reprs, rfl⟩
 
+/-! ## 8. the data tables the tool trusts: pins over files regenerated from /repo/data on every run of this check
+
+`WorldOk` / `worldOk_live` and several component theorems rest on the CONTENT of data files shipped with the tool, which the code
+trusts without validation (`check_plurals` parses the registry's declarations strictly OUTSIDE any `try`; `Checker.tag` raises
+`DataIntegrityError` for a name missing from data/tags; `get_language_for_name` parses the code a name maps to outside any
+handler for `LanguageSyntaxError`; `propose_portable_encoding` asserts on the table).  Each such assumption is re-stated here as
+a theorem over the `Generated/` file that `./check C01` regenerates from the data file (pluralforms2lean, tagregistry2lean +
+tagsites2lean, locale2lean, charset2lean, date2lean, msg2lean), so that an edit of the data that invalidates it breaks a proof
+obligation OF THIS PROPERTY; the table sweeps of the check (tools/gen/sweep.py: every row of every table through the real
+`Checker.check`) then supply the concrete input. -/
+
+/-- **data/languages, `plural-forms`**: every declaration of the registry parses STRICTLY (no junk after the final `;`, e.g. no
+    `# note` that `ConfigParser` keeps in the value) and is total, in range and onto on the window; registry indices are valid;
+    no language has two declarations with the same nplurals (C07 `shipped_registry_clean`, kernel evaluation over
+    `Generated.PluralForms`) — what `WorldOk.registry` relies on -/
+theorem registry_parses_strictly :
+    (∀ c ∈ Generated.PluralForms.registryStrings, ∃ n e, CheckPlurals.parsePluralFormsStrict c = .ok n e [] []) ∧
+    (∀ en ∈ Generated.PluralForms.registry, ∀ i ∈ en.2, i < Generated.PluralForms.registryStrings.length) := by
+  obtain ⟨h1, h2, _⟩ := C07.shipped_registry_clean
+  exact ⟨fun c hc => by obtain ⟨n, e, h, _⟩ := h1 c hc; exact ⟨n, e, h⟩, h2⟩
+
+/-- hence `check_plurals` raises nothing for ANY language of the registry (or none), any Plural-Forms values, any messages -/
+theorem registry_language_nocrash (inp : CheckPlurals.Input) (h : CheckPlurals.FromRegistry inp) :
+    ∃ out, CheckPlurals.checkPlurals inp = .ok out := C07.checkPlurals_nocrash inp h
+
+/-- **data/tags**: every `….tag('<name>', …)` call site of lib/ names a tag of the registry (C02 `tag_sites_registered` over
+    `Generated.TagSites` × `Generated.TagRegistry`): `cli.Checker.tag` never raises `DataIntegrityError` -/
+theorem tags_registered : ∀ s ∈ Generated.TagSites.sites, C02.tagSiteOk s = true := C02.tag_sites_registered
+
+/-- **data/languages `names`, data/iso-codes**: every locale name a language NAME maps to is in the locale grammar (so
+    `get_language_for_name` raises nothing but `LookupError`), and the loaded code tables are what `_read_iso_codes` builds -/
+theorem locale_tables_sane :
+    Locale.namesParse Generated.Locale.nameToCode = true ∧
+    Locale.loadIso639 (Generated.Locale.iso639.map (·.1)) Generated.Locale.languageCodes = Generated.Locale.iso639 :=
+  ⟨Locale.names_parse, C19.iso_tables_loaded.1⟩
+
+/-- **data/encodings**: the loaded tables are what `_read_encodings` builds from the file, and every Python codec the table
+    proposes is itself portable: the `assert` of `propose_portable_encoding` cannot fire (C20 `tables_pin`, `registry_closed`) -/
+theorem charset_tables_sane :
+    (Charset.readPortable Charset.Tables.vanillaLookup Generated.Charset.dataPortable ([], [])
+      = some (Generated.Charset.portableEncodings, Generated.Charset.pycodecToEncoding)) ∧
+    (Generated.Charset.pycodecToEncoding.all fun kv =>
+      (Charset.Tables.rowOf' (Charset.upper kv.2)).map (·.codec) == some (some kv.1)) = true :=
+  ⟨C20.tables_pin.1, C20.registry_closed⟩
+
+/-- **data/timezones**: every abbreviation is alphabetic, none is listed twice, every offset is `±HHMM` (C18 `table_pin`) -/
+theorem timezone_table_sane :
+    Generated.DateTables.timezones.all Date.entryOk = true ∧ Date.keysDistinct Generated.DateTables.timezones = true :=
+  C18.table_pin
+
+/-- **data/string-formats** and the other tables behind `check_messages`: the generated environment is sane whatever expat
+    answers short of a foreign exception (C16 `live_env_sane`: no format name or prefix holds a brace, `get_character_name` is
+    total on what `find_unusual_characters` reports) -/
+theorem message_tables_sane (xml : Tags.Str → Msg.XmlVerdict) (hx : ∀ s, xml s ≠ .other) : Spec.MessageRules.Sane (Msg.liveEnv xml) :=
+  C16.live_env_sane xml hx
+
 /-! ## what is printed -/
 
 /-- every printed line is `<E|W|I|P>: <path>: <tag>[ <extra>…]` without a newline inside, whatever the extras
